@@ -20,13 +20,14 @@ Section Main.
       product is declared hermitian) *)
   Definition herm_low : Prop :=
     forall s p i j n,
-      kind_of alg (xw_inputs W) s = KProduct p -> pherm p = true -> j < i ->
+      kind_of alg (xw_inputs W) s = KProduct p -> pherm p = true -> j < i -> wf_index W (i, j, n) = true ->
       forall x : V, (forall fu' w', spec fu' (KN s) (j, i, n) = Some w' -> eqv x w') ->
       forall fu w, spec fu (KN s) (i, j, n) = Some w -> eqv (vadj O x) w.
 
   Definition herm_diag : Prop :=
     forall s p i n fu w,
       kind_of alg (xw_inputs W) s = KProduct p -> pherm p = true -> length (pfactors p) = 2 ->
+      wf_index W (i, i, n) = true ->
       iprod_gen O (SW O W sfn) (spec fu) (i, i, n) false (first_key p 2) (second_key p 2) = Some w ->
       forall fu' w', iprod_gen O (SW O W sfn) (spec fu') (i, i, n) true (first_key p 2) (second_key p 2) = Some w' ->
                      eqv w' w.
@@ -129,9 +130,10 @@ End Main.
 
 (** reaching one's own in-flight marker raises RuntimeError (no divergence, nothing returned) *)
 Theorem recursion_detected V (O : vops V) alg prog (W : xworld V) rec tb k ix (s : state V) :
+  wf_index W ix = true ->
   st_lookup s (tb, k, ix) = Some Pending ->
   getitem_step O alg prog W rec tb k ix s = (Raise RuntimeError, s).
-Proof. intros H. unfold getitem_step. now rewrite H. Qed.
+Proof. intros Hwf H. unfold getitem_step. rewrite Hwf, H. reflexivity. Qed.
 
 (** a value is returned only from a [Done] entry or from the completed evaluation that is
     stored as [Done]: the marker itself is never a result *)
@@ -140,6 +142,7 @@ Theorem returned_is_stored V (O : vops V) alg prog (W : xworld V) rec tb k ix (s
   st_lookup s' (tb, k, ix) = Some (Done v).
 Proof.
   unfold getitem_step. intros E.
+  destruct (wf_index W ix); cbn [negb] in E; [|discriminate].
   destruct (st_lookup s (tb, k, ix)) as [[|v0]|] eqn:Lk.
   - discriminate.
   - inversion E; subst. exact Lk.
